@@ -1,5 +1,6 @@
 import Vore.Lemmas.ReplaceSpec
 import Vore.Props.C03
+import Vore.Lemmas.MemStream
 /-!
 # C06 — Replace output is the exact splice; each mode touches only the file it may
 
@@ -16,6 +17,38 @@ theorem C06_splice (pf vf : Nat) (fn text : Bytes) (amt : Amount) (code : List I
     (ms : List Match) (h : runCmd pf vf fn text (.replace amt code rep) = some (.ok ms)) :
     writtenText text ms = splice text ms 0 :=
   writtenText_eq_splice text ms (C03_command pf vf fn text _ ms h)
+
+/-- **the in-memory output stream** (`files/memorystream.go`, `files/writer.go`, the destination of `Run` and of mode
+NOTHING): the `WriteAt` calls `searchReplace` makes for ANY text and match list never hit one of the two slice panics of
+`MemoryStream.Write` (the growth rule `2*(pos+len(buf))` always leaves room for the reslice), and the bytes the stream
+holds afterwards are exactly the written text of `C06_splice` — the length/capacity arithmetic refines the abstract write. -/
+theorem C06_memory_stream (text : Bytes) (ms : List Match) :
+    ∃ s', MS.runOps MS.new ((MS.writerCalls text ms).map (fun w => MS.Op.writeAt (w.1 : Int) w.2)) = .ok s' ∧
+      s'.contents = writtenText text ms ∧ s'.len ≤ s'.arr.length := by
+  obtain ⟨s', h1, h2, h3⟩ := MS.memory_writer_refines text ms
+  exact ⟨s', h1, h3, h2.1⟩
+
+/-- … and for a replace command that ran: the stream holds the splice -/
+theorem C06_memory_stream_splice (pf vf : Nat) (fn text : Bytes) (amt : Amount) (code : List Instr) (rep : List RInstr)
+    (ms : List Match) (h : runCmd pf vf fn text (.replace amt code rep) = some (.ok ms)) :
+    ∃ s', MS.runOps MS.new ((MS.writerCalls text ms).map (fun w => MS.Op.writeAt (w.1 : Int) w.2)) = .ok s' ∧
+      s'.contents = splice text ms 0 := by
+  obtain ⟨s', h1, h2, _⟩ := C06_memory_stream text ms
+  exact ⟨s', h1, by rw [h2]; exact C06_splice pf vf fn text amt code rep ms h⟩
+
+/-- no history of `Write`, `Seek` (any whence, failing ones included) and `WriteAt` with non-negative offsets panics -/
+theorem C06_memory_stream_total (ops : List MS.Op)
+    (hops : ∀ op ∈ ops, match op with | .writeAt off _ => 0 ≤ off | _ => True) :
+    ∃ s', MS.runOps MS.new ops = .ok s' :=
+  let ⟨s', h, _⟩ := MS.runOps_never_panics ops MS.new MS.inv_new hops
+  ⟨s', h⟩
+
+/-- non-vacuity: a write, a seek beyond the end, a write there (the gap reads as zero bytes), an overwrite in the middle -/
+example : MS.runOps MS.new [.write [1, 2], .seek 2 2, .write [9], .writeAt 1 [7, 7]] =
+    .ok ⟨[1, 7, 7, 0, 9, 0, 0, 0, 0, 0], 5, 3⟩ := by decide
+
+/-- a negative `WriteAt` offset is the one panic there is (`panic(serr)` in `Writer.WriteAt`) -/
+example : MS.runOps MS.new [.writeAt (-1) [1]] = .panic "negative result pos" := by decide
 
 /-- NOTHING changes no file -/
 theorem C06_mode_nothing (pf vf : Nat) (fs fs' : FileSys) (fn text : Bytes) (c : BCmd) (ms : List Match)
@@ -173,6 +206,9 @@ theorem C06_run_single (pf vf : Nat) (mode : Mode) (f : Bytes) :
         | pfuel => rfl
 
 #print axioms C06_splice
+#print axioms C06_memory_stream
+#print axioms C06_memory_stream_splice
+#print axioms C06_memory_stream_total
 #print axioms C06_mode_nothing
 #print axioms C06_mode_new
 #print axioms C06_mode_overwrite
